@@ -198,6 +198,10 @@ def one(job):
         if killer:
             rec['status'] = 'killed-by-unmapped-check'
             rec['killed_by'] = killer
+        elif any(v['rc'] == 2 for v in rec['checks'].values()):
+            rec['status'] = 'INCONCLUSIVE'      # some check could not decide (harness failure): look at it
+        elif any(v['rc'] == 1 for v in rec['checks'].values()):
+            rec['status'] = 'HANG-ONLY'         # the only symptom was a hang key (not counted as a kill under load)
         else:
             rec['status'] = 'SURVIVED'
         return rec
@@ -263,8 +267,8 @@ def main():
         st[r['status']] = st.get(r['status'], 0) + 1
     print('summary', st, 'wall %.0fs' % (time.time() - t0))
     for r in out:
-        if r['status'] == 'SURVIVED':
-            print('SURVIVED %s:%d [%s] %s: `%s` -> `%s`' % (r['file'], r['line'], r['function'], r['kind'], r['old'], r['new']))
+        if r['status'] in ('SURVIVED', 'INCONCLUSIVE', 'HANG-ONLY'):
+            print('%s %%s:%%d [%%s] %%s: `%%s` -> `%%s`' % r['status'] % (r['file'], r['line'], r['function'], r['kind'], r['old'], r['new']))
 
 
 if __name__ == '__main__':
